@@ -223,8 +223,8 @@ PROPS = {
                    "the call must succeed with exactly one succeeding primary's value at the virtual time of the earliest success, consult fallbacks only on unavailability-class failures of all primaries, and return at the cancellation instant when nodes respect their context.",
         level_note="Mixed error classes assert nothing about fallback use (the implementation keys on the last error); a hung primary with no succeeding primary legitimately blocks; distinct latencies make completion order well defined.",
         runs={
-            "quick": [dict(test="TestC19Multi", checks=15000, shards=4), dict(test="TestC19Sequence", checks=4000, shards=2), dict(test="TestC19LazyCancel", checks=12, shrinktime="20s")],
-            "thorough": [dict(test="TestC19Multi", checks=300000, shards=12, timeout=3000), dict(test="TestC19Sequence", checks=150000, shards=4, timeout=3000), dict(test="TestC19LazyCancel", checks=150, timeout=3000)],
+            "quick": [dict(test="TestC19Multi", checks=15000, shards=4), dict(test="TestC19Multi", checks=8000, env={"GOMAXPROCS": "2"}), dict(test="TestC19Sequence", checks=4000, shards=2), dict(test="TestC19LazyCancel", checks=12, shrinktime="20s")],
+            "thorough": [dict(test="TestC19Multi", checks=300000, shards=10, timeout=3000), dict(test="TestC19Multi", checks=150000, shards=2, timeout=3000, env={"GOMAXPROCS": "2"}), dict(test="TestC19Sequence", checks=150000, shards=4, timeout=3000), dict(test="TestC19LazyCancel", checks=150, timeout=3000)],
         },
     ),
     "C12": dict(
@@ -235,8 +235,8 @@ PROPS = {
         level_note="Fully verifiable (hash + signature) bases: harness-assembled locks of every version v1.0..v1.11, the committed examples v1.1, v1.2, v1.7 and cluster.NewForT v1.10, v1.11; the per-version golden locks give hash verification only. "
                    "Genesis fork versions of the test networks are restated in the harness; herumi BLS is trusted.",
         runs={
-            "quick": [dict(test="TestC12Create", checks=30, shards=4, shrinktime="15s"), dict(test="TestC12Tamper", checks=4000), dict(test="TestC12ReEncode", mode="plain"), dict(test="TestC12Regression", mode="plain")],
-            "thorough": [dict(test="TestC12Create", checks=400, shards=14, timeout=3000), dict(test="TestC12Tamper", checks=100000, timeout=3000), dict(test="TestC12ReEncode", mode="plain"), dict(test="TestC12Regression", mode="plain")],
+            "quick": [dict(test="TestC12Create", checks=30, shards=4, shrinktime="15s"), dict(test="TestC12Tamper", checks=4000), dict(test="TestC12ReEncode", mode="plain"), dict(test="TestC12Regression", mode="plain"), dict(test="TestC12ConfigRehash", checks=600)],
+            "thorough": [dict(test="TestC12Create", checks=400, shards=14, timeout=3000), dict(test="TestC12Tamper", checks=100000, timeout=3000), dict(test="TestC12ReEncode", mode="plain"), dict(test="TestC12Regression", mode="plain"), dict(test="TestC12ConfigRehash", checks=20000, timeout=3000)],
         },
     ),
     "C11": dict(
